@@ -102,6 +102,11 @@ _SITE_CACHE = {}
 def sites(kind, seed):
     key = (kind, seed)
     if key not in _SITE_CACHE:
+        if kind == "line-dup":   # the line plus a seventh site that COINCIDES with site 1 (distance 0 < d: one of the two must go)
+            base = sites("line", seed)
+            pts = np.vstack([np.asarray(base), np.asarray(base)[1:2]])
+            _SITE_CACHE[key] = pts
+            return pts
         pts = _sites(kind, seed)
         # brute-force re-verification of the genericity precondition on the palette actually used
         if sup.min_margin(pts, RADII) < MARGIN:
@@ -362,7 +367,7 @@ def exec_tm(case, obs):
         source, layout = source.split("|")
     nvox = int(np.prod(shape))
     vals = tm_scores(nvox, seed)
-    thr = tm_threshold(vals, k_supra)
+    thr = tm_threshold(vals, k_supra) if k_supra != -1 else 0.0
     scores = np.array([vals[r] for r in ranking], dtype=np.float64).reshape(shape)
     a, b = PERM_AB[nvox]
     rowof = np.array([(a * f + b) % nvox for f in range(nvox)]).reshape(shape)
@@ -515,6 +520,10 @@ def families(tier, seed):
 
     from ..motlgen import with_row_index_kinds
     fams.append(with_row_index_kinds(fams[-1], select=lambda c: c[5] and c[4] == 1.6, kinds=("gapped", "reversed", "repeated"), expect=("survivors-separated", "removed-dominated", "survivors-equal-greedy-model")))  # clean-plumbing x {gapped, reversed}
+    # two particles at exactly the same complete position (with shifts: different x,y,z / shift splits of the same point)
+    dup_shapes = [c for c in clean_shapes("line-dup", 7, (2, 3), 0, 2) if 1 in c[1] and 6 in c[1]]
+    fams.append(clean_family("clean-coincident-particles", dup_shapes, RADII, [P0, ("tomo_id", "score", True), ("class", "geom1", True)], seed,
+                             ("survivors-separated", "removed-dominated", "survivors-equal-greedy-model")))
     tm_core = ("peaks-exceed-threshold", "peaks-separated", "supra-voxel-dominated", "peaks-equal-greedy-model",
                "peak-score-is-voxel-score", "peak-position-1based", "peak-angles")
     perms6 = list(itertools.permutations(range(6)))
@@ -539,6 +548,8 @@ def families(tier, seed):
                           Union(Mapped(Product(lat, (60, 30, 10), (1.0, 2.0, 3.0)), lambda c: (big, c[0], c[1], c[2], 0, "zxz", "array")),
                                 Product(((6, 1, 1), (3, 2, 1)), perms6, (6, 4, 2), (1.0, 2.0), [0], ["zxz"], ["array"])),
                           seed, tm_core))
+    # the threshold 0.0 itself (a falsy number): k_supra = -1 means "scores_threshold=0.0", the palette straddles 0
+    fams.append(tm_family("tm-threshold-zero", Product(((6, 1, 1), (3, 2, 1)), perms6, (-1,), (1.2, 2.5), [0], ["zxz"], ["array"]), seed, tm_core))
     layouts = ["array|F", "array|view", "array|em", "array|mrc"]
     fams.append(tm_family("tm-map-layouts",
                           Union(Mapped(Product(lat, (60, 30, 10, 1), (1.2, 2.5), (0, 1), layouts), lambda c: (big, c[0], c[1], c[2], c[3], "zxz", c[4])),
